@@ -14,5 +14,6 @@ CONSTANTS
   SSSet = {FALSE}
   ModeSet = {"single"}
   Workers = 1
+  ArchSet = {FALSE}
 POSTCONDITION Post
 CHECK_DEADLOCK FALSE
